@@ -201,7 +201,33 @@ func main() {
 	}
 
 	// ---- configurations
-	creds := []credSet{{"A", "admin", "s3cret"}, {"B", "qryn", "p:w d9"}}
+	// three pairs so that every class of the base64 alphabet occurs in a right header: letters of both cases, digits,
+	// '+' and '/', and padding of 0, 1 and 2 characters (asserted below)
+	creds := []credSet{{"A", "admin", "s3cret"}, {"B", "qryn", "p:w d9"}, {"F", "ops", "ab~~~???x"}}
+	{
+		seen := map[string]bool{}
+		for _, c := range creds {
+			e := b64(c.login + ":" + c.pass)
+			seen[fmt.Sprintf("pad%d", strings.Count(e, "="))] = true
+			for _, ch := range e {
+				switch {
+				case ch >= 'a' && ch <= 'z':
+					seen["lower"] = true
+				case ch >= 'A' && ch <= 'Z':
+					seen["upper"] = true
+				case ch >= '0' && ch <= '9':
+					seen["digit"] = true
+				case ch == '+' || ch == '/':
+					seen[string(ch)] = true
+				}
+			}
+		}
+		for _, k := range []string{"lower", "upper", "digit", "+", "/", "pad0", "pad1", "pad2"} {
+			if !seen[k] {
+				ev.Fatal("the credential pairs do not exercise base64 class %q", k)
+			}
+		}
+	}
 	cors := []string{"", "*"}
 	if r.Thorough() {
 		creds = append(creds, credSet{"C", "u", "p"}, credSet{"D", "Ünï", "pässwörd/+=%"}, credSet{"E", "operator", "correct horse battery staple"})
@@ -525,7 +551,7 @@ func judge(r *ev.Run, pr *ProbeResult, walked, walkedTpl, abandoned map[string]b
 	cfg := pr.Cfg
 	variants := map[string]Variant{}
 	for _, v := range cfg.Variants {
-		v.Class = classify(v.Absent, v.Header, cfg.Login, cfg.Password)
+		v.Class = classifyVariant(v, cfg.Login, cfg.Password)
 		variants[v.ID] = v
 	}
 	routes := pr.Header.Routes
